@@ -267,6 +267,13 @@ def verify_hyperparameters(num_input_dims=None,
                        "len(monotonicities): %d, num_input_dims: %d" %
                        (monotonicities, len(monotonicities), num_input_dims))
 
+  if num_input_dims is not None:
+    for name, bounds in (("input_min", input_min), ("input_max", input_max)):
+      if bounds is not None and len(bounds) != num_input_dims:
+        raise ValueError("Number of elements in '%s' must be equal to "
+                         "num_input_dims. %s: %s, num_input_dims: %d" %
+                         (name, name, bounds, num_input_dims))
+
   if weights_shape is not None:
     if len(weights_shape) != 2:
       raise ValueError("Expect weights to be a rank 2 tensor. Weights shape: "
